@@ -228,3 +228,79 @@ func H18_resize() {
 		}
 	}
 }
+
+// H18_inject_sb: InjectKeyBytes in every single-byte legacy charset: any defined printable
+// byte >= 0x80, last in the buffer or followed by a letter, comes out as its rune.
+func H18_inject_sb() {
+	cs := h11SB[vsymChoice("charset", len(h11SB))]
+	vsymNote("charset", cs.name)
+	RegisterEncoding(cs.name, cs.enc)
+	s, _ := h18New(cs.name, 3, 1)
+	b := vsymByte("b")
+	vsymAssume(b >= 0x80)
+	dst := make([]byte, 8)
+	n, nsrc, err := cs.enc.NewDecoder().Transform(dst, []byte{b}, true)
+	vsymAssume(err == nil && n > 0 && nsrc == 1)
+	want, _ := utf8.DecodeRune(dst[:n])
+	vsymAssume(vsymAnd(want != utf8.RuneError, want >= 0xa0))
+	in := []byte{'x', b}
+	last := vsymChoice("last", 2) == 1
+	if !last {
+		in = append(in, 'y')
+	}
+	h18Inject(s, in, []rune{'x', want, 'y'}[:len(in)])
+}
+
+// H18_inject_mb: InjectKeyBytes in the double-byte legacy charsets: any two-byte character
+// (lead byte from a window, as in H11_legacy), last in the buffer or followed by a letter.
+func H18_inject_mb() {
+	cs := h11MB[vsymChoice("charset", len(h11MB))]
+	vsymNote("charset", cs.name)
+	RegisterEncoding(cs.name, cs.enc)
+	span := vsymParam("leadspan", 2)
+	ll := cs.leadList()
+	nwin := (len(ll) + span - 1) / span
+	maxwin := vsymParam("leadwins", 3)
+	w := vsymChoice("leadwin", maxwin)
+	if maxwin < nwin {
+		w = w * nwin / maxwin
+	} else {
+		w = w % nwin
+	}
+	s, _ := h18New(cs.name, 3, 1)
+	lead, trail := vsymByte("lead"), vsymByte("trail")
+	in := false
+	for i := w * span; i < (w+1)*span && i < len(ll); i++ {
+		in = vsymOr(in, int(lead) == ll[i])
+	}
+	vsymAssume(in)
+	vsymAssume(trail >= 0x40)
+	dst := make([]byte, 8)
+	n, nsrc, err := cs.enc.NewDecoder().Transform(dst, []byte{lead, trail}, true)
+	vsymAssume(err == nil && n > 0 && nsrc == 2)
+	want, _ := utf8.DecodeRune(dst[:n])
+	vsymAssume(want != utf8.RuneError && want >= 0x80)
+	buf := []byte{'x', lead, trail}
+	last := vsymChoice("last", 2) == 1
+	if !last {
+		buf = append(buf, 'y')
+	}
+	h18Inject(s, buf, []rune{'x', want, 'y'}[:len(buf)-1])
+}
+
+func h18Inject(s SimulationScreen, in []byte, want []rune) {
+	for s.HasPendingEvent() {
+		s.PollEvent()
+	}
+	res := s.InjectKeyBytes(in)
+	vsymAssert(res, "InjectKeyBytes accepts valid text in the charset (a multi-byte character may come last)")
+	for i := range want {
+		vsymAssert(s.HasPendingEvent(), "every injected character is delivered")
+		if !s.HasPendingEvent() {
+			return
+		}
+		ek, isKey := s.PollEvent().(*EventKey)
+		vsymAssert(isKey && ek.Key() == KeyRune && ek.Rune() == want[i], "injected character i comes out as rune key event i")
+	}
+	vsymAssert(!s.HasPendingEvent(), "nothing else is delivered")
+}
